@@ -54,4 +54,22 @@ def expectedConnErrExpected : String :=
   "err != nil && (errors.As(err, &netErr) || errors.Is(err, io.EOF))"
 theorem expected_conn_err_src : expected_conn_err = expectedConnErrExpected := by decide
 
+/-- `NewHandler`: every configured main upstream starts active; the initial health check runs iff
+`HealthcheckInitDuration > 0` and is an ordinary `refresh`. -/
+theorem new_handler_if_conds_src :
+    new_handler_if_conds = "l != nil | c.HealthcheckInitDuration > 0" := by decide
+theorem new_handler_active_append_src :
+    new_handler_active_append = "append(h.activeUpstreams, u)" := by decide
+theorem new_handler_init_refresh_src : new_handler_init_refresh = "ctx, true" := by decide
+theorem refresh_calls_healthcheck_src : refresh_calls_healthcheck = "ctx, mustReport" := by decide
+theorem public_refresh_src : public_refresh = "h.refresh(ctx, false)" := by decide
+/-- The random choices range over the whole active / fallback list. -/
+theorem pick_index_src : pick_index = "len(h.activeUpstreams)" := by decide
+theorem serve_fallback_index_src : serve_fallback_index = "len(h.fallbacks)" := by decide
+theorem serve_fallback_pick_src : serve_fallback_pick = "h.fallbacks[i]" := by decide
+/-- `exchangeNet`: one more attempt on a fresh connection, only after an expected connection error. -/
+def exchangeNetIfCondsExpected : String :=
+  "network == NetworkTCP | err != nil | err != nil | isExpectedConnErr(err) | err != nil"
+theorem exchange_net_if_conds_src : exchange_net_if_conds = exchangeNetIfCondsExpected := by decide
+
 end Agd.Tie.C17
